@@ -304,6 +304,39 @@ def check_mixed_containers(res: Result, names, want, case):
                 res.nontrivial += 1
 
 
+def check_repeat_calls(res: Result, names, want, case):
+    """The array constructors called twice with the *same argument objects* (a numpy.dtype object, a dtype list, a dict of columns,
+    a list of records) build the same vector both times and leave their arguments as they were."""
+    dim, system, flavor, origin = want
+    rows = [tuple(TAG[n] for n in names), tuple(-TAG[n] for n in names)]
+    dt_obj = np.dtype([(n, np.float64) for n in names])
+    dt_list = [(n, np.float64) for n in names]
+    cols = {n: np.array([TAG[n], -TAG[n]]) for n in names}
+    recs = [{n: TAG[n] for n in names}, {n: -TAG[n] for n in names}]
+    akcols = {n: ak.Array([TAG[n], -TAG[n]]) for n in names}
+    forms = [("array(dtype object)", lambda: vector.array(rows, dtype=dt_obj), lambda: tuple(dt_obj.names)), ("array(dtype list)", lambda: vector.array(rows, dtype=dt_list), lambda: tuple(n for n, _ in dt_list)),
+             ("array(dict)", lambda: vector.array(cols), lambda: tuple(cols)), ("Array(records)", lambda: vector.Array(recs), lambda: tuple(recs[0])), ("zip", lambda: vector.zip(akcols), lambda: tuple(akcols))]
+    for cname, build, argnames in forms:
+        res.states += 1
+        res.transitions += 2
+        res.traces += 1
+        res.evaluations += 1
+        c2 = dict(case, ctor=cname, repeat=True)
+        key = f"repeat_call|{cname}|{flavor}"
+        try:
+            d1 = describe_arraylike(build())
+            d2 = describe_arraylike(build())
+        except Exception as e:  # noqa: BLE001
+            res.violation(key + "|raises", f"{cname}({', '.join(names)}) called twice with the same argument objects raised {type(e).__name__}: {str(e)[:150]}", c2)
+            continue
+        if d1 is None or d2 is None or d1[:3] != d2[:3] or d1[:3] != (dim, system, flavor):
+            res.violation(key, f"{cname}({', '.join(names)}) built {d1 and d1[:3]} the first time and {d2 and d2[:3]} the second time it was given the same argument objects (documented: {(dim, system, flavor)})", c2)
+        elif argnames() != tuple(names):
+            res.violation(key + "|argument_modified", f"{cname}: the caller's argument now names {argnames()} instead of {tuple(names)}", c2)
+        else:
+            res.nontrivial += 1
+
+
 ARRAY_CTORS = {"array(dict)": _array_dict, "array(dtype)": _array_dtype, "zip": _zip, "Array": _Array}
 
 GOOD_KINDS = {"int": lambda x: int(x), "numpy.float64": lambda x: np.float64(x), "numpy.int32": lambda x: np.int32(int(x)), "numpy.float32": lambda x: np.float32(x)}
@@ -352,6 +385,8 @@ def check_set(res: Result, names, tier, only=None):
         return
     if only in (None, "array(dict)", "zip"):
         check_mixed_containers(res, names, want, case)
+    if only is None or case.get("repeat") or str(only).startswith(("array(", "Array(", "zip")):
+        check_repeat_calls(res, names, want, case)
     dim, system, flavor, origin = want
     cls_name = ("Momentum" if flavor == "momentum" else "Vector") + f"Object{dim}D"
     ctors = {"obj": vector.obj, cls_name: OBJ_CLASSES[cls_name][0]}
